@@ -174,10 +174,13 @@ def _remove_unwanted_expression_nodes(parent_node, pos, until_pos):
     is_suite_part = typ in ('suite', 'file_input')
     if typ in EXPRESSION_PARTS or is_suite_part:
         nodes = parent_node.children
+        start_index = end_index = None
         for i, n in enumerate(nodes):
             if n.end_pos > pos:
                 start_index = i
-                if n.type == 'operator':
+                # A binary operator (`+`, `or`, `in`, ...) needs its left
+                # operand; a leading unary operator (`-x`, `not x`) has none.
+                if _is_not_extractable_syntax(n) and i > 0:
                     start_index -= 1
                 break
         for i, n in reversed(list(enumerate(nodes))):
@@ -193,6 +196,13 @@ def _remove_unwanted_expression_nodes(parent_node, pos, until_pos):
                     else:
                         break
                 break
+        if start_index is None or end_index is None or start_index > end_index:
+            # The range does not cover anything of this node, e.g. only the
+            # whitespace in front of an operator.
+            raise RefactoringError('Cannot extract anything from that')
+        if not is_suite_part and start_index == 0 and end_index >= len(nodes) - 1:
+            # Nothing is cut off, the whole node (e.g. `-x`) is wanted.
+            return [parent_node]
         nodes = nodes[start_index:end_index + 1]
         if not is_suite_part:
             nodes[0:1] = _remove_unwanted_expression_nodes(nodes[0], pos, until_pos)
